@@ -55,6 +55,89 @@ def binding_table(p):
     return f, table
 
 
+def concrete_inclusive(p, f, start, opplace, adt, variant):
+    """value (0/1) of the `inclusive` field of the IndexRangeBound built on the path from block `start` when the
+    operator at `opplace` is `variant`; None when the walk meets a decision it cannot evaluate"""
+    discr = {v["name"]: v["discr"] for v in p.enum_variants(adt)}
+    if variant not in discr:
+        return None
+    proms = f.rec.get("promoted") or []
+    known = {}
+    b, steps = start, 0
+    while steps < 64:
+        steps += 1
+        blk = f.blocks[b]
+        dl = {}
+        for st in blk["stmts"]:
+            rv = st["rv"]
+            if len(st["dst"]) != 1:
+                continue
+            d = st["dst"][0]
+            if rv.get("r") == "discr" and rv["p"] == opplace:
+                dl[d] = True
+                known[d] = ("discr", discr[variant])
+            elif rv.get("r") == "use" and rv["o"]:
+                o = rv["o"][0]
+                k = o.get("k")
+                if k is not None and k.get("ty") == "bool" and "v" in k:
+                    known[d] = ("bool", k["v"])
+                else:
+                    l = op_local(o)
+                    if l in known and len((o.get("c") or o.get("m"))) == 1:
+                        known[d] = known[l]
+                    else:
+                        known.pop(d, None)
+            elif rv.get("r") == "agg" and str(rv.get("adt", "")).endswith("IndexRangeBound"):
+                o = rv["o"][rv["fields"].index("inclusive")]
+                k = op_const(o)
+                if k is not None:
+                    return k.get("v")
+                l = op_local(o)
+                if l in known and known[l][0] == "bool":
+                    return known[l][1]
+                return None
+            else:
+                known.pop(d, None)
+        t = blk["term"]
+        if t["t"] == "goto":
+            b = t["to"]
+        elif t["t"] == "switch":
+            l = op_local(t["o"])
+            if l not in known:
+                return None
+            val = known[l][1]
+            nxt = [tg for v, tg in t["targets"] if v == val]
+            b = nxt[0] if nxt else t["otherwise"]
+        elif t["t"] == "call":
+            c = t
+            fnd = c["fn"].get("def") if isinstance(c.get("fn"), dict) else None
+            if fnd in ("std::cmp::PartialEq::eq", "std::cmp::PartialEq::ne") and any(adt in g for g in c["fn"].get("gargs", [])):
+                # op == CONST: one argument is a promoted constant of the operator enum
+                cv = None
+                for a in c["args"]:
+                    la = op_local(a)
+                    for st in blk["stmts"]:
+                        if st["dst"] == [la]:
+                            for oo in (st["rv"].get("o") or []) if isinstance(st["rv"].get("o"), list) else []:
+                                pi = (oo.get("k") or {}).get("promoted")
+                                if isinstance(pi, int) and not isinstance(pi, bool) and pi < len(proms) and proms[pi] and proms[pi].get("adt") == adt:
+                                    cv = proms[pi]["variant"]
+                if cv is None or not c.get("dst"):
+                    return None
+                eq = (cv == variant)
+                known[c["dst"][0]] = ("bool", int(eq if fnd.endswith("::eq") else not eq))
+            elif c.get("dst"):
+                known.pop(c["dst"][0], None)
+            if c.get("to") is None:
+                return None
+            b = c["to"]
+        elif t["t"] in ("drop", "assert"):
+            b = t["to"]
+        else:
+            return None
+    return None
+
+
 def check(cx):
     p = cx.p
     # ---- C05.1 precedence -------------------------------------------------------------------
@@ -332,6 +415,12 @@ def check(cx):
                             k = op_const(rv["o"][i])
                             incl.add(k.get("v") if k else "non-constant")
                 wv, wi = WANT[side][var]
+                if "non-constant" in incl:
+                    # `inclusive: matches!(op, X)` / `*op == X` in an arm shared by several operators: evaluate it
+                    # for this operator by walking the arm with the operator's discriminant known
+                    v_ = concrete_inclusive(p, f, m[var], src, adt, var)
+                    if v_ is not None:
+                        incl = (incl - {"non-constant"}) | {v_}
                 if "non-constant" in incl and vecs == wv:
                     # inclusiveness computed at run time (e.g. arms merged with `inclusive: op == Ge`): not a table entry
                     cx.advisory(r6, key, f.where(), "the `%s` arm computes `inclusive` at run time: side checked (%s), inclusiveness not decided" % (var, sorted(vecs)))
@@ -433,7 +522,8 @@ def check(cx):
     # ---- C05.9 a NULL join key matches nothing and stalls nothing ----------------------------------------------------------
     r9 = cx.rule("C05.9", "TAB: in MergeJoin::compare_keys a NULL key on one side returns the ordering whose arm in MergeJoin::next "
                  "advances that same side (the row with the NULL is stepped over; answering the other ordering drains the other "
-                 "input and the join loses every later match); keys_match answers false for NULL on either side", floor=3)
+                 "input and the join loses every later match); keys_match answers false for NULL on either side; both compare every "
+                 "column of a composite key (the column comparison sits in a loop)", floor=5)
     fck = [g for g in p.fns.values() if g.name == "compare_keys" and "join::MergeJoin" in g.id and not g.root]
     fnx = [g for g in p.fns.values() if g.name == "next" and "join::MergeJoin" in g.id and not g.root]
     if not fck or not fnx:
@@ -503,6 +593,19 @@ def check(cx):
                 cx.verdict(got == {want}, r9, "null-key:%s" % fld, fck.where(), "NULL on the %s answers %s (advances the %s input)" % (fld, want, fld),
                            "a NULL key on the %s makes compare_keys answer %s, but only %s advances the %s input: the other input is "
                            "drained past its matches and an inner equi-join with one NULL key returns no rows" % (fld, sorted(got), want, fld))
+    # composite keys: the comparison of one key column sits in a loop that can go round again (a function that
+    # answers after the first column pairs rows on a prefix of the join key)
+    from axvlib.core import natural_loops as _nl
+    for g_, nm_ in ((fck if not isinstance(fck, list) else None, "compare_keys"), (p.fns.get("runtime::ops::join::keys_match"), "keys_match")):
+        if g_ is None:
+            continue
+        cmpc = [c for c in g_.calls() if c.defn in ("std::cmp::PartialOrd::partial_cmp", "std::cmp::PartialEq::eq", "std::cmp::PartialEq::ne",
+                                                     "std::cmp::Ord::cmp") and any("DataType" in a for a in c.gargs)]
+        loops_ = _nl(g_)
+        inloop = [c for c in cmpc if any(c.bb in body for h, body in loops_)]
+        cx.verdict(bool(cmpc) and len(inloop) == len(cmpc), r9, "all-key-columns:" + nm_, g_.where(), "key columns are compared inside a loop over the key",
+                   "%s answers after comparing one key column (the comparison is not inside a loop that continues with the next column): "
+                   "rows are paired on a prefix of a composite join key" % nm_)
     km = p.fns.get("runtime::ops::join::keys_match")
     if km is None:
         cx.bad(r9, "keys_match", "", "keys_match not found")
